@@ -5,6 +5,7 @@
 -/
 import LiquidModel.Lemmas.Monad
 import LiquidModel.Model.CondParse
+import LiquidModel.Lemmas.CondGroup
 namespace Liquid.C06
 open Liquid
 
@@ -185,5 +186,38 @@ theorem C06_malformed :
     (∀ x o, parseCondition [.val x, .cmp o] = none) ∧
     (∀ x, parseCondition [.val x, .or_] = none) := by
   refine ⟨rfl, rfl, fun _ => rfl, fun _ _ => rfl, fun _ => rfl⟩
+
+/-! ### the general grouping theorem (any number of atoms, any mixture of `and`/`or`) -/
+
+open Liquid.CondGroup in
+/-- **Grouping, in general.** Any flat sequence `a11 and a12 … or a21 and … or …` — any number of
+groups, any number of atoms per group, atoms being bare values or comparisons — parses to the
+left-nested disjunction of the left-nested conjunctions of its atoms: `and` binds tighter than
+`or`, homogeneous chains associate to the left. -/
+theorem C06_grouping (g : Group) (gs : List Group) :
+    parseCondition (disjToks g gs) = some (disjTree g gs) :=
+  parseCondition_disjToks g gs
+
+open Liquid.CondGroup in
+/-- **No other reading.** Whatever token sequence `parse_condition` accepts *is* such a sequence and
+its parse is the grouped tree; everything else is a parse error. -/
+theorem C06_grouping_unique (toks : List CTok) (c : Cond) (h : parseCondition toks = some c) :
+    ∃ (g : Group) (gs : List Group), toks = disjToks g gs ∧ c = disjTree g gs :=
+  parseCondition_shape h
+
+open Liquid.CondGroup in
+/-- **Truth of a grouped condition.** When its atoms evaluate (to `tv`), the parsed condition is
+true exactly when some `or`-group has all its atoms true. -/
+theorem C06_grouping_truth (st : Stack) (tv : Atom → Bool) (g : Group) (gs : List Group)
+    (h : ∀ x ∈ g :: gs, ∀ b ∈ x.1 :: x.2, b.cond.eval st = .ok (tv b)) :
+    ∃ c, parseCondition (disjToks g gs) = some c ∧
+      c.eval st = .ok ((g :: gs).any fun x => (x.1 :: x.2).all tv) :=
+  ⟨_, parseCondition_disjToks g gs, eval_disjTree st tv g gs h⟩
+
+open Liquid.CondGroup in
+/-- non-vacuity: `x or y and z == w and v` is an instance -/
+example (x y z w v : Expr) :
+    disjToks (.ex x, []) [(.ex y, [.bin z .eq w, .ex v])]
+      = [.val x, .or_, .val y, .and_, .val z, .cmp .eq, .val w, .and_, .val v] := rfl
 
 end Liquid.C06
